@@ -196,6 +196,18 @@ def run(F, rep):
     marker_vars = [nm for nm, bi, e, er in upd_pk if e == want_marker]
     rep.ob("C12-TP2", "writer marker = (N << 4) | (len % N)", len(marker_vars) == 1, detail="locals assigned that value: %s" % marker_vars,
            site="%s:%d" % (pk.file, pk.line_lo), key="C12-TP2 | writer marker")
+    # ... computed on the full length: the remainder must be taken before any narrowing conversion (256 is not a multiple of 3)
+    expk = Exprs(pk, keep_casts=True)
+    narrow = []
+    for nm, bi, e, er in local_updates(pk, expk):
+        if nm in marker_vars:
+            for x in walk(e):
+                if isinstance(x, tuple) and x[0] == "bin" and x[1] == "Rem":
+                    for y in walk(x[2]):
+                        if isinstance(y, tuple) and y[0] == "cast" and y[2] in ("u8", "u16", "u32", "i8", "i16", "i32"):
+                            narrow.append(fmt(x)[:80])
+    rep.ob("C12-TP2", "the trailing count is the remainder of the whole length (no narrowing before the %)", bool(marker_vars) and not narrow,
+           detail="narrowed dividend: %s" % narrow, site="%s:%d" % (pk.file, pk.line_lo), key="C12-TP2 | remainder of full length")
     pushed = [exp.operand(t["args"][1]) for bi, t in pk.calls() if t["callee"].endswith("Vec::<u8>::push") or t["callee"].endswith("Vec::<T, A>::push")]
     rep.ob("C12-TP2", "the marker is the last byte pushed by the packer", bool(pushed) and _last_push_is_marker(pk, exp), key="C12-TP2 | marker pushed last")
     upd_r = [e for nm, bi, e, er in local_updates(t2b, exr)]
